@@ -399,4 +399,7 @@ def replay(data):
         return 1
     bad = monitor(c, *parsed[0])
     print('monitor:', bad or 'ok')
+    agree = bool(model) and model[0] == 'O ' + ' ; '.join(parsed[0][1])
+    print('model agrees with implementation:', agree,
+          '(broker allocation is hash-order dependent: another run of the same case line may exercise another layout)')
     return 1 if bad else 0
